@@ -227,7 +227,7 @@ type privEqualer interface {
 func TestC14Keys(t *testing.T) {
 	const name = "TestC14Keys"
 	rec := evid.New("C14", name, "keys built inside the generator from rapid-drawn bytes: RSA from two generated primes (modulus 1024..2064 bits incl. uneven prime sizes, e in {3,17,257,65537}), ECDSA scalars on P-224/256/384/521 (tiny, a few bytes long around 2^31 / 2^32 / 2^52 / 2^53 / 2^63, near n, leading zero bytes/top bit, random; one key in four moved to the next point with a coordinate shorter than the field) "+
-		"x every register format (PKCS#1, PKCS#8, SEC1, X.509, Transparent) x private/public half x versions 1.0..1.4 x {binary, XML, JSON}; pipeline: client.Register().WithKeyFormat(f).<builder>(key) -> request message -> encode/decode -> Get response -> encode/decode (binary: received from a TTLV stream on which another message follows before the key is extracted) -> accessors; "+
+		"x every register format (PKCS#1, PKCS#8, SEC1, X.509, Transparent, and 1 in 4 any combination of the format flags) x private/public half x versions 1.0..1.4 x {binary, XML, JSON}; pipeline: client.Register().WithKeyFormat(f).<builder>(key) -> request message -> encode/decode -> Get response -> encode/decode (binary: received from a TTLV stream on which another message follows before the key is extracted) -> accessors; "+
 		"oracle: key.Equal(original) for every accessor incl. the PEM ones, asked in a drawn order and the first one once more at the end; non-trivial = transparent format or XML/JSON; distinct by (key, format, version, encoding, half)").Attach(t)
 	rapid.Check(t, func(rt *rapid.T) {
 		ver := rapid.SampledFrom(gen.Versions).Draw(rt, "version")
@@ -259,6 +259,13 @@ func TestC14Keys(t *testing.T) {
 			}
 		}
 		f := rapid.SampledFrom(formats).Draw(rt, "format")
+		if rapid.IntRange(0, 3).Draw(rt, "combined") == 0 {
+			// KeyFormat is a bit set ("WithKeyFormat(PKCS8 | X509)"): any combination of the flags, the library picks among them
+			f = kmipclient.KeyFormat(rapid.IntRange(1, 63).Draw(rt, "formatmask"))
+		}
+		if _, ok := fname[f]; !ok {
+			fname[f] = fmt.Sprintf("mask-0x%02x", uint8(f))
+		}
 		// (the rendering for the evidence is made from a copy: marshalling precomputes the CRT values of the key it is given)
 		var forDER crypto.PrivateKey = priv
 		if rk, ok := priv.(*rsa.PrivateKey); ok {
